@@ -266,10 +266,36 @@ def print_rule(ctx, r):
             continue
         s = Sccp(f).run([(c2[0][1][1], {})])
         vals = {x for v in s.ret_values.values() for x in value_set(v)}
-        if vals == {V("Ok", I(0))}:
-            r.ok("standard|%s" % m, "convert ∧ offset seen ⇒ Ok(false) before StandardImpl::sink", fn=f)
+        if m == "matched":
+            # a matching line after binary data: counted (match_count was incremented on entry), not printed, and the search stops
+            if vals == {V("Ok", I(0))}:
+                r.ok("standard|%s" % m, "convert ∧ offset seen ⇒ Ok(false) before StandardImpl::sink", fn=f)
+            else:
+                r.bad("standard|%s" % m, "the convert-mode guard of StandardSink::%s returns %s" % (m, vals), fn=f)
         else:
-            r.bad("standard|%s" % m, "the convert-mode guard of StandardSink::%s returns %s" % (m, vals), fn=f)
+            # a context line after binary data is not printed either, but it may not end the search while no line has matched:
+            # "yields no notice and no match only if no line of it matches" — the notice needs match_count > 0
+            rets = [eb.rvalue(st["rv"]) for bb, j, st in f.stmts() if bb in s.exec_blocks and st["k"] == "assign" and
+                    st["place"]["l"] == 0 and not st["place"]["p"]]
+            on_count = rets and all(mentions_field(x, STD, "match_count") for x in rets)
+            if on_count and not any(isinstance(v_, tuple) and v_ == V("Ok", I(0)) for v_ in vals if v_ is not None and v_ == V("Ok", I(0)) and len(vals) == 1):
+                r.ok("standard|%s" % m, "convert ∧ offset seen ⇒ not printed; the search stops only once a match was counted", fn=f)
+            else:
+                r.bad("standard|%s" % m, "StandardSink::context ends the search as soon as a context line follows binary data in convert "
+                      "mode, whether or not a line has matched yet: with -B/-C/--passthru an explicitly named binary file that has a "
+                      "matching line gets neither its 'binary file matches' notice nor exit status 0", fn=f, construct="convert-guard")
+    # the separator between context groups is output too: not after binary data in convert mode
+    cb = facts.fn("<%s as %s>::context_break" % (STD, SINK))
+    ebc = ExprBuilder(cb)
+    ws = [c for c in cb.calls() if c.path.endswith("write_context_separator")]
+    k1 = cond_switches(cb, lambda e: is_call(e, "core::option::Option::is_some") and
+                       mentions_call(e, "grep_searcher::searcher::BinaryDetection::convert_byte"), ebc)
+    k2 = cond_switches(cb, lambda e: is_call(e, "core::option::Option::is_some") and mentions_field(e, STD, "binary_byte_offset"), ebc)
+    if ws and k1 and k2 and ws[0].bb not in C.reach(cb, [0], removed_edges={k1[0][2], k2[0][2]}):
+        r.ok("standard|context_break", "no context separator after binary data in convert mode", fn=cb)
+    else:
+        r.bad("standard|context_break", "StandardSink::context_break writes `--` even after binary data was seen in convert mode: a file "
+              "that only gets a notice (or nothing) still emits separators", fn=cb, construct="convert-guard")
     f = facts.fn("<%s as %s>::finish" % (STD, SINK))
     eb = ExprBuilder(f)
     wb = f.calls_to(PR + "::standard::StandardImpl::write_binary_message")
